@@ -63,6 +63,8 @@ def attr_c10(ev, names):
 def attr_c19(ev, names):
     if fam(ev, "a") and ev["op"] == "reduce":
         return any_in(names, {"val", "exp", "cnt", "panic", "sys"})
+    if fam(ev, "a") and ev["op"] == "dreduce":
+        return any_in(names, {"dval", "panic"})
     return fam(ev, "nd")
 
 
@@ -157,12 +159,14 @@ def attr_c06(ev, names):
         return any_in(names, {"frame", "ctxframe"})
     if fam(ev, "t"):
         return "parse-pre" in names
+    if fam(ev, "cv"):
+        return "codec-pre" in names
     return fam(ev, "mh")
 
 
 PROPS["C06"] = dict(
     mc=[("MC_ErrDec", None)],
-    drivers=[("pre", "TraceRel"), "machine", "parse"],
+    drivers=[("pre", "TraceRel"), "machine", "parse", "codec"],
     attr=attr_c06,
     rule="each case is executed into 7 destination pre-states; all recorded outcomes must be identical; operands unchanged",
 )
